@@ -262,8 +262,9 @@ def free_batch(ctx, exe, cases, kind, tsan=False):
     if not cases:
         return False
     # last field: SIGUSR1 (handler without SA_RESTART) fired at random threads about every <n> microseconds (0 = off)
-    lines = ["pcqfree %d %s %s %d %d %d %d" % (c[0], fmt_prods(c[1]), fmt_list(c[2]), c[3], c[4], 0 if tsan else 1,
-                                              0 if tsan else c[5]) for c in cases]
+    # then: percentage of element copies (T::operator=) that throw inside Produce/Consume (the caller retries)
+    lines = ["pcqfree %d %s %s %d %d %d %d %d" % (c[0], fmt_prods(c[1]), fmt_list(c[2]), c[3], c[4], 0 if tsan else 1,
+                                                 0 if tsan else c[5], 0 if tsan else c[6]) for c in cases]
     if tsan:
         rc, o, e = stream.run_lines(exe, lines, timeout=900,
                                     env={"TSAN_OPTIONS": "halt_on_error=1 exitcode=66 report_signal_unsafe=0"})
@@ -295,7 +296,7 @@ def gen_free_case(rng, big):
         prods = unique_values([len(prods[0]), rng.randrange(1, 20)])
         tot = sum(len(p) for p in prods)
         quotas = split_total(rng, tot, len(quotas))
-    return cap, prods, quotas, rng.randrange(1, 1 << 30), rng.choice([0, 10, 30, 60]), rng.choice([0, 60, 200, 600])
+    return cap, prods, quotas, rng.randrange(1, 1 << 30), rng.choice([0, 10, 30, 60]), rng.choice([0, 60, 200, 600]), rng.choice([0, 0, 10, 30])
 
 
 # ---------------------------------------------------------------- ThreadPool / Chain streams (operation granularity)
@@ -603,6 +604,43 @@ def probe_batch(ctx, hexe, dexe, n):
     return False
 
 
+def fail_batch(ctx, hexe, dexe, n):
+    """Driven schedules with injected copy failures: the element type's operator= throws at the listed attempts
+    (attempt = critical-section body executed by that thread); the caller retries.  A failed operation must be
+    transparent: the values SUCCESSFULLY produced are consumed exactly once, in order."""
+    rng = ctx.rng
+    cases = []
+    for _ in range(n):
+        cap, prods, quotas, sched = gen_random_pcq(rng, False)
+        if rng.random() < 0.5:
+            cap = rng.choice([2, 2, 3, 4])
+        nth = len(prods) + len(quotas)
+        fails = []
+        for t in range(nth):
+            k = rng.choice([0, 1, 1, 2, 3])
+            fails.append(sorted(set(rng.randrange(0, 8) for _ in range(k))))
+        cases.append((cap, prods, quotas, fails, sched))
+    lines = ["pcqf %d %s %s %s %s" % (c[0], fmt_prods(c[1]), fmt_list(c[2]),
+                                      ";".join(fmt_list(f) for f in c[3]), fmt_list(c[4])) for c in cases]
+    ho = run_harness(hexe, lines)
+    rc2, do, e2 = stream.run_lines(dexe, lines, timeout=900)
+    for i, c in enumerate(cases):
+        ctx.count(("pcqf", lines[i]), nontrivial=any(c[3]))
+        ctx.hist("pcq.copyfail.threads_with_failures", sum(1 for f in c[3] if f))
+        bad = oracle_pcq(c[0], c[1], c[2], ho[i])
+        if bad:
+            ctx.violation("PCQueue with failing element copies (strong exception guarantee): " + bad,
+                          {"stream": "pcq-copyfail", "op": lines[i], "impl": ho[i][:3000],
+                           "model": do[i][:3000] if i < len(do) else None})
+            return True
+        if i >= len(do) or ho[i] != do[i]:
+            ctx.violation("PCQueue with failing element copies: model and implementation disagree on a driven schedule",
+                          {"stream": "pcq-copyfail", "op": lines[i], "impl": ho[i][:3000],
+                           "model": do[i][:3000] if i < len(do) else None}, no_input=True)
+            return True
+    return False
+
+
 # ---------------------------------------------------------------- the pcq stream
 def pcq_batch(ctx, hexe, dexe, cases, kind, hooks):
     """cases: list of (cap, prods, quotas, sched).  Returns True if a violation was reported."""
@@ -712,6 +750,9 @@ def _run(ctx, problems, hexe, priv):
     # 2a. probes: a thread the model says is blocked must stay blocked when released
     if hooks and not found:
         found = probe_batch(ctx, hexe, dexe, 150 if quick else 1200) or found
+    # 2a'. injected copy failures (exception path of Produce/Consume)
+    if hooks and not found:
+        found = fail_batch(ctx, hexe, dexe, 250 if quick else 2500) or found
     # 2b. ThreadPool and Chain, driven at operation granularity
     if hooks and not found:
         found = pool_chain_streams(ctx, hexe, dexe, problems) or found
